@@ -46,3 +46,14 @@ class SameOriginUnionHolder(State):
 
     pair: tuple[int, Any | Missing] | tuple[str, int] | tuple[str, str]
     tag: int = 0
+
+
+class DefaultedHolder(State):
+    value: Any | Missing = 10
+    tag: int = 0
+
+
+class RedeclaredHolder(DefaultedHolder):
+    """the subclass takes the inherited default back: without an argument the attribute holds the missing value again"""
+
+    value: Any | Missing = MISSING
